@@ -244,19 +244,29 @@ theorem C18_leave_races_handlers :
 a cancelled caller context ⇒ the context error; otherwise a session that ended with a
 close-like error while the listener was closed locally (`Close`/`Shutdown`) ⇒ `ErrClosed`;
 otherwise — in particular every session loss not initiated locally — reconnect (with backoff,
-forever: the reconnect only fails when the listener's own close context is cancelled).
-The pinned tree classified a remote close as local (`D4`). -/
-theorem C18_reconnect_decision (ctx loc : Bool) (k : ErrKind) :
+forever: the reconnect only fails when the listener's own close context is cancelled); and
+after a successful reconnect the close context is re-checked: a listener closed *while*
+reconnecting returns `ErrClosed` and closes the new session, which nobody had told (`F11`).
+The pinned tree classified a remote close as local (`D4`) and, before `F11`, kept accepting on
+the new session after such a close. -/
+theorem C18_reconnect_decision (ctx loc during : Bool) (k : ErrKind) :
     (ctx = false → loc = false → acceptDecision ctx loc k = .reconnect) ∧
     (ctx = false → loc = true → k ≠ .other → acceptDecision ctx loc k = .errClosed) ∧
     (ctx = true → acceptDecision ctx loc k = .ctxErr) ∧
     (acceptDecision ctx loc k = .reconnect ↔ (ctx = false ∧ (loc = false ∨ k = .other))) ∧
     (acceptDecision ctx loc k = .errClosed ↔ (ctx = false ∧ loc = true ∧ k ≠ .other)) ∧
     (acceptDecision ctx loc k = .ctxErr ↔ ctx = true) ∧
-    (acceptOutcome ctx loc k = .reconnected ↔ (ctx = false ∧ loc = false)) ∧
+    -- the listener keeps accepting (on the new session) iff nothing was closed or cancelled
+    (acceptOutcome ctx loc during k = .reconnected ↔ (ctx = false ∧ loc = false ∧ during = false)) ∧
+    -- closed locally while reconnecting (F11): `ErrClosed`, and the new session is closed
+    (ctx = false → loc = false → during = true →
+      acceptOutcome ctx loc during k = .errClosed ∧ (afterReconnect during).2 = true) ∧
+    -- a local close never leaves `Accept` accepting
+    ((loc = true ∨ during = true) → acceptOutcome ctx loc during k ≠ .reconnected) ∧
     (acceptDecisionPinned false false .netClosed = .errClosed ∧
-      acceptDecision false false .netClosed = .reconnect) := by
-  cases ctx <;> cases loc <;> cases k <;> decide
+      acceptDecision false false .netClosed = .reconnect ∧
+      acceptOutcomeBeforeF11 false false true .netClosed = .reconnected) := by
+  cases ctx <;> cases loc <;> cases during <;> cases k <;> decide
 
 /-- **Recovery**, with its hypotheses explicit.  For a surviving node with manager state `m`
 (any state satisfying the manager invariant of C05):
@@ -351,6 +361,7 @@ example :
 example : acceptDecision false false .netClosed = .reconnect ∧
     acceptDecision false true .netClosed = .errClosed ∧
     acceptDecision true false .other = .ctxErr ∧
-    acceptOutcome false true .other = .connectErr := by decide
+    acceptOutcome false true false .other = .connectErr ∧
+    acceptOutcome false false true .netClosed = .errClosed := by decide
 
 end Piko
